@@ -209,6 +209,19 @@ theorem toString_of_parse (s : Bytes) (m : XKey) (h : keyFromString C H s = .ok 
   rw [this, List.take_append_drop]
 
 
+omit LC LH in
+/-- the reverse round trip: `String` of a parsed key is the string that was parsed -/
+theorem string_of_parse (s : Bytes) (m : XKey) (h : keyFromString C H s = .ok m) :
+    Model.Bip32.toString C H m = s := by
+  obtain ⟨d, hd, he⟩ := toString_of_parse s m h
+  rw [he, Base58L.encode_spec, Base58L.encode_decode_spec s d hd]
+
+omit LC LH in
+/-- parsing is injective: two strings that parse to the same key are the same string -/
+theorem parse_injective (s s' : Bytes) (m : XKey) (h : keyFromString C H s = .ok m)
+    (h' : keyFromString C H s' = .ok m) : s = s' := by
+  rw [← string_of_parse s m h, ← string_of_parse s' m h']
+
 /-! ### well-formed model keys are exactly the representations of spec keys -/
 
 omit LH in
